@@ -21,11 +21,11 @@ variable {P O : Type} (g : Game P) (ord : Oracle P O)
 theorem table_restored_alphaBeta (fuel : Nat) (p : P) (depth ply : Nat) (a b : Int) (n : Bool)
     (s s' : SS P O) (v : Int) (h : alphaBeta g ord fuel p depth ply a b n s = .ok v s') :
     ∀ k, count s'.table k = count s.table k :=
-  (alphaBeta_pres g ord fuel p depth ply a b n).triple s.table s v s' (TableEq.refl _) h
+  ((alphaBeta_pres g ord fuel p depth ply a b n).triple s.table).run s v s' (TableEq.refl _) h
 
 theorem table_restored (fuel : Nat) (root : P) (s s' : SS P O) (h : getBestMove g ord fuel root s = .ok () s') :
     ∀ k, count s'.table k = count s.table k :=
-  (getBestMove_pres g ord fuel root).triple s.table s () s' (TableEq.refl _) h
+  ((getBestMove_pres g ord fuel root).triple s.table).run s () s' (TableEq.refl _) h
 
 theorem sent_is_root_move (hord : OrdSub ord) (fuel : Nat) (root : P) (s : SS P O) (hs : s.reports = #[]) :
     ∀ q, Report.sent q ∈ (outState (getBestMove g ord fuel root s)).reports.toList → RootSucc g root q :=
